@@ -106,6 +106,7 @@ def run_dec(job, res, tier):
     name = 'dis %s|%s%s %s' % (' '.join('%02x' % p for p in prefixes), ' '.join('%02x' % b for b in opc),
                                '' if last is None else ' {%02x..}' % last[0], rowname)
     seen = set()
+    lenwits = []
 
     def on_path(eng, d):
         if d.kind == 'exc':
@@ -135,6 +136,7 @@ def run_dec(job, res, tier):
                 bad.append((tag, desc, w[:i.l]))
         if bad:
             return ('CEXS', bad, i.m.name)
+        lenwits.append((tuple(wits[0][:min(len(wits[0]), 15)]), i.l, i.m.name))
         return ('OK', i.m.name, i.l)
     eng, rs = E.explore(job, on_path, tier=tier, max_paths=60000, max_seconds=1200 if tier == 'thorough' else 240)
     res['paths'] += eng.stats['paths']
@@ -170,6 +172,21 @@ def run_dec(job, res, tier):
             res['inconclusive'].append('%s: %s' % (name, r[1]))
         else:
             res['inconclusive'].append('%s: %r' % (name, r[:2]))
+    # "nor consumes bytes beyond the instruction": the decoder's own length is checked against GNU objdump at the path witnesses
+    # (arbiter level, labelled so); only over-reads are C10's subject, any other disagreement is C01's
+    if lenwits:
+        from vf.oracles import objdump as OD
+        uniq = list(dict.fromkeys(lenwits))[:2000]
+        for (w, l, mn), od in zip(uniq, OD.disassemble([bytes(w) for w, _, _ in uniq])):
+            if od is None or '(bad)' in od[1] or od[1].startswith('.byte'):
+                continue
+            if od[0] < l:
+                key = 'dis:over-read:%s:%s|%s' % (_mn_class(mn), ' '.join('%02x' % p_ for p_ in prefixes), ' '.join('%02x' % b_ for b_ in opc) + ('' if last is None else ' {%02x..}' % last[0]))
+                if key in seen:
+                    continue
+                seen.add(key)
+                res['candidates'].append({'key': key, 'desc': '%s: the decoder consumes %d bytes, the instruction (%s) has %d e.g. %s' % (name, l, od[1], od[0], ' '.join('%02x' % b for b in w[:l])),
+                                          'data': {'kind': 'dis', 'bytes': list(w), 'what': 'over-read', 'key': key}})
     if ok:
         res['nontrivial'] += 1
         if len(res['samples']) < 2:
@@ -187,9 +204,10 @@ def jobs(tier, seed):
         E.worker_init()
     if tier == 'quick':
         js = E.make_jobs(tier, seed, sib='reps', per_signature=True, prefix_sets=E.PREFIX_SETS_QUICK)
+        js += E.make_jobs(tier, seed, sib='min', per_signature=True, prefix_sets=[(0x66, 0x66), (0x67, 0x67)])
     else:
         js = E.make_jobs(tier, seed, sib='reps', per_signature=False, prefix_sets=[(), (0x66,), (0x67,)])
-        js += E.make_jobs(tier, seed, sib='min', per_signature=False, prefix_sets=[(0x66, 0x67), (0x2E,), (0xF2,), (0xF3,), (0xF0,), (0x67, 0x26)])
+        js += E.make_jobs(tier, seed, sib='min', per_signature=False, prefix_sets=[(0x66, 0x67), (0x2E,), (0xF2,), (0xF3,), (0xF0,), (0x67, 0x26), (0x66, 0x66), (0x67, 0x67)])
     out = [('dec', j, tier) for j in js]
     # the rendering clauses depend on the mnemonic, not on the row signature: every row once, concretely
     rs = E.rows()
@@ -268,6 +286,11 @@ if i is not None:
             pass
         try: bad = x86mnemo.dis(data[:i.l]) is None
         except Exception: bad = True
+    elif what == 'over-read':
+        from vf.oracles import objdump as OD
+        od = OD.disassemble([data])[0]
+        print('objdump:', od)
+        bad = od is not None and '(bad)' not in od[1] and od[0] < i.l
     elif what.startswith('render'):
         fmt = 'att_syntax binutils' if ':att:' in what else None
         try: print(i.__str__(fmt) if fmt else str(i))
